@@ -41,6 +41,10 @@ func (vc *VC) execInstr(fx *FuncCtx, in ssa.Instruction, st *State, fr *Frame) {
 			id := vc.nextCell
 			st.cells[id] = zeroVal(elem)
 			p := &PtrV{Kind: PCell, Cell: id, Elem: elem}
+			if vc.cellAlloc == nil {
+				vc.cellAlloc = map[int]*ssa.Alloc{}
+			}
+			vc.cellAlloc[id] = x
 			fr.regs[x] = p
 			if x.Comment != "" && fx.locals != nil {
 				fx.locals[x.Comment] = p
@@ -52,9 +56,11 @@ func (vc *VC) execInstr(fx *FuncCtx, in ssa.Instruction, st *State, fr *Frame) {
 		if at, ok := under(elem).(*types.Array); ok {
 			p = &PtrV{Kind: PHeap, Base: ref, Key: elemKey(at.Elem()), Elem: elem}
 			vc.zeroArray(st, at.Elem(), ref)
+			vc.noteLocal(ref, elemKey(at.Elem()))
 		} else {
 			p = &PtrV{Kind: PHeap, Base: ref, Key: typeKey(elem), Elem: elem}
 			st.storeKey(PHeap, p.Key, ref, nil, elem, zeroVal(elem))
+			vc.noteLocal(ref, typeKey(elem))
 		}
 		fr.regs[x] = p
 		if x.Comment != "" && fx.locals != nil {
@@ -99,6 +105,7 @@ func (vc *VC) execInstr(fx *FuncCtx, in ssa.Instruction, st *State, fr *Frame) {
 		et := under(x.Type()).(*types.Slice).Elem()
 		ref := vc.freshRef()
 		vc.zeroArray(st, et, ref)
+		vc.noteLocal(ref, elemKey(et))
 		ln := vc.val(fx, fr, x.Len).(*Term)
 		cp := vc.val(fx, fr, x.Cap).(*Term)
 		ln, cp = intOf(ln), intOf(cp)
